@@ -127,6 +127,21 @@ def run_fault(cfg, entry, ch):
     d = CircuitBreaker.allow(w.breaker)
     w.trace.append(("probe", d.allowed, d.state.value))
     v = monitor(w, full, d.allowed)
+    if d.allowed and not v:
+        # one more recovery cycle: settle our own probe, trip the breaker again, wait, ask again -
+        # a probe flag left over from the call under test would reject this second probe
+        brk = w.breaker
+        if d.state.value == "half_open":
+            CircuitBreaker.record_success(brk)
+        from redress.errors import ErrorClass
+        for _ in range(full["breaker"]["threshold"]):
+            CircuitBreaker.record_failure(brk, ErrorClass.TRANSIENT)
+        w.tick(full["breaker"]["recovery"])
+        d2 = CircuitBreaker.allow(brk)
+        w.trace.append(("probe2", d2.allowed, d2.state.value))
+        if not d2.allowed:
+            v.append(("c08.probe-leaked", "one full trip/recovery cycle after the call ended the "
+                                          "probe was rejected: the call left a probe flag behind"))
     # keep the end record last for the outcome signature
     w.trace.append(w.trace[[i for i, r in enumerate(w.trace) if r[0] == "end"][-1]])
     return w, v
